@@ -255,6 +255,8 @@ class Quaternion(SMUserList):
         :seealso: :func:`~spatialmath.base.quaternions.matrix`
         """
 
+        if len(self) > 1:
+            return [base.matrix(q) for q in self.data]
         return base.matrix(self._A)
 
 
